@@ -24,8 +24,45 @@ func fingerprint(b []byte) string {
 }
 
 // iterateAr drives the real reader to the end (with a step cap) and dumps what it saw.
+// plainReaderAt is an io.ReaderAt and nothing else (no Len, no Size, no Seek)
+type plainReaderAt struct{ b []byte }
+
+func (p plainReaderAt) ReadAt(q []byte, off int64) (int, error) {
+	if off < 0 || off >= int64(len(p.b)) {
+		return 0, io.EOF
+	}
+	n := copy(q, p.b[off:])
+	if n < len(q) {
+		return n, io.EOF
+	}
+	return n, nil
+}
+
+// arSource: the same bytes behind different io.ReaderAt implementations, some of which have
+// been read from sequentially before (a caller that sniffed the magic, or skipped a prefix):
+// random access does not depend on any read position.
+func arSource(data []byte) io.ReaderAt {
+	switch (len(data)/3 + len(data)) % 5 {
+	case 1:
+		r := bytes.NewReader(data)
+		io.CopyN(io.Discard, r, 8)
+		return r
+	case 2:
+		r := strings.NewReader(string(data))
+		io.CopyN(io.Discard, r, int64(len(data)/2))
+		return r
+	case 3:
+		return plainReaderAt{data}
+	case 4:
+		r := bytes.NewReader(data)
+		io.Copy(io.Discard, r)
+		return r
+	}
+	return bytes.NewReader(data)
+}
+
 func iterateAr(data []byte) string {
-	a, err := deb.LoadAr(bytes.NewReader(data))
+	a, err := deb.LoadAr(arSource(data))
 	if err != nil {
 		return "err-magic"
 	}
@@ -155,6 +192,19 @@ func genArMembers(r *core.Rand) []arMember {
 		if r.Chance(1, 3) {
 			m.Slash = len(m.Name) < 16
 		}
+		special := false
+		if r.Chance(1, 8) {
+			// names other ar dialects give a meaning to (GNU: "//" name table, "/<offset>" reference
+			// into it, "/" symbol table; BSD: "#1/<len>"): for this reader they are names
+			m.Name = r.Pick([]string{"//", "/", "/0", "/27", "/1", "/x", "//x", "#1/20", "/123456789", "__.SYMDEF"})
+			m.Slash = false
+			if m.Name == "//" {
+				// the column "//" is what GNU ar writes for a member "/" (name + terminator); given
+				// that way the specification covers it
+				m.Name, m.Slash = "/", true
+			}
+			special = true
+		}
 		if r.Chance(1, 5) {
 			m.TS = ""
 		}
@@ -163,6 +213,10 @@ func genArMembers(r *core.Rand) []arMember {
 		}
 		size := r.Pick2(r.Intn(4), r.Intn(300))
 		m.Data = []byte(r.Str("abc\n\x00\xff`!<arch>", size))
+		if special && r.Bool() {
+			// what a GNU name table looks like, with and without the final newline
+			m.Data = []byte(r.Pick([]string{"control.tar.gz.extra/\ndata.tar.gz.extra/\n", "a-very-long-member-name.tar/\n", "long-name-without-newline.tar/", "x/\ny", "", "/\n"}))
+		}
 		ms = append(ms, m)
 	}
 	return ms
